@@ -1,7 +1,7 @@
 (* Properties_C02.v — C02: division returns the exact quotient/remainder with the documented
    rounding.  Statements only. *)
 From Coq Require Import ZArith List Bool.
-From Mpir Require Import Word Limbs MpnBasicDefs MpzDefs DivDefs DivWordProofs DivWord2Proofs DivProofs.
+From Mpir Require Import DcDivDefs DcDivProofs Word Limbs MpnBasicDefs MpzDefs DivDefs DivWordProofs DivWord2Proofs DivProofs.
 Import ListNotations.
 Local Open Scope Z_scope.
 
@@ -95,6 +95,26 @@ Print Assumptions C02_divisible_congruent.
 Theorem C02_divcheck_complete : forall n d q r, n = q * d + r -> divcheck_residues n d q r = true.
 Proof. exact divcheck_complete. Qed.
 Print Assumptions C02_divcheck_complete.
+
+
+(* divide-and-conquer division as coded (mpn/generic/dc_div_qr_n.c): high half by the top half of the divisor, multiply back,
+   correct with the "while (cy != 0)" loop, then the low half; base case any exact division of 2m by m limbs.  For EVERY
+   2n-limb numerator, every normalised n-limb divisor, every threshold and recursion depth: exact quotient (with its extra
+   high bit qh) and remainder; the first correction loop runs at most 4 times, the second at most 2 *)
+Theorem C02_dc_div_qr_n : forall basediv mmin thr fuel lfuel n N D,
+  base_exact basediv mmin thr -> 1 <= mmin -> 2 * mmin <= thr -> (4 <= lfuel)%nat ->
+  2 * mmin <= n -> n <= 2 ^ Z.of_nat fuel -> 0 <= N < Bp (2 * n) -> Bp n / 2 <= D < Bp n ->
+  let '(qh, Q, R) := dc_div_qr_n basediv fuel lfuel thr n N D in
+  N = (qh * Bp n + Q) * D + R /\ 0 <= R < D /\ 0 <= Q < Bp n /\ (qh = 0 \/ qh = 1).
+Proof. exact dc_div_qr_n_correct. Qed.
+Print Assumptions C02_dc_div_qr_n.
+
+Theorem C02_dc_div_qr_n_is_div_mod : forall basediv mmin thr fuel lfuel n N D,
+  base_exact basediv mmin thr -> 1 <= mmin -> 2 * mmin <= thr -> (4 <= lfuel)%nat ->
+  2 * mmin <= n -> n <= 2 ^ Z.of_nat fuel -> 0 <= N < Bp (2 * n) -> Bp n / 2 <= D < Bp n ->
+  let '(qh, Q, R) := dc_div_qr_n basediv fuel lfuel thr n N D in qh * Bp n + Q = N / D /\ R = N mod D.
+Proof. exact dc_div_qr_n_div_mod. Qed.
+Print Assumptions C02_dc_div_qr_n_is_div_mod.
 
 Example C02_nonvacuous :
   B / 2 <= B - 1 < B /\ udiv_qrnnd_preinv1 (B - 2) (B - 1) (B - 1) (invert_limb (B - 1)) = (B - 1, B - 2)
